@@ -289,8 +289,96 @@ func cloneCase(r *rng.R, opt genOpt) sexp.Node {
 		sexp.T("data", jsonSexp(data)), sexp.T("errors", sexp.Int(nerr)))
 }
 
+// ---- exhaustive small domains (they come first) ----
+
+// chains: every list / non-null wrapper chain of exactly k wrappers (no non-null directly around a
+// non-null) around Int.
+func chains(k int) []*gTy {
+	if k == 0 {
+		return []*gTy{named("Int")}
+	}
+	var out []*gTy
+	for _, t := range chains(k - 1) {
+		out = append(out, listOf(t))
+		if t.Kind != '!' {
+			out = append(out, nonNull(t))
+		}
+	}
+	return out
+}
+
+// chainCase: one definition whose query type has a field and an argument of every chain of k
+// wrappers (k up to 9: beyond the 8 levels the query sees).
+func chainCase(k int) sexp.Node {
+	gs := &gSchema{}
+	for _, b := range []string{"Int", "Float", "String", "Boolean", "ID"} {
+		gs.add(&gType{Kind: "scalar", Name: b, Builtin: true})
+	}
+	q := gs.add(&gType{Kind: "object", Name: "Query"})
+	q.Fields = append(q.Fields, &gField{Name: "plain", Ty: named("Int")})
+	for i, t := range chains(k) {
+		q.Fields = append(q.Fields, &gField{Name: fmt.Sprintf("f%d", i), Ty: t,
+			Args: []*gIV{{Name: "a", Ty: t}}})
+	}
+	gs.Query = "Query"
+	_, s := mustSchema(gs)
+	data, nerr := introspectJSON(s, nil)
+	fillE2E(gs, data)
+	return sexp.T("case", sexp.Sym("intro"),
+		sexp.T("schema", gs.sexp()), sexp.T("features", names(nil)),
+		sexp.T("data", jsonSexp(data)), sexp.T("errors", sexp.Int(nerr)))
+}
+
+// the alphabet of the exhaustive string defaults: one representative of every branch of
+// encoding/json's string encoder and of the lexer's string reader
+var stringAlphabet = []string{"a", "\"", "\\", "/", "\n", "\t", "\r", "\b", "\f", "\x00", "\x1f", "\x7f", "<", ">", "&", "u",
+	"\u00e9", "\u07ff", "\u0800", "\u2028", "\u2029", "\ud7ff", "\ue000", "\uffff", "\ufeff"}
+
+// stringCases: every string of length <= 2 over the alphabet as the default of a String argument,
+// a few dozen arguments per definition.
+func stringCases(h *hx.H) {
+	all := []string{""}
+	for _, a := range stringAlphabet {
+		all = append(all, a)
+	}
+	for _, a := range stringAlphabet {
+		for _, b := range stringAlphabet {
+			all = append(all, a+b)
+		}
+	}
+	const per = 40
+	for start := 0; start < len(all); start += per {
+		start := start
+		h.Case(func(r *rng.R) sexp.Node {
+			gs := &gSchema{}
+			for _, b := range []string{"Int", "Float", "String", "Boolean", "ID"} {
+				gs.add(&gType{Kind: "scalar", Name: b, Builtin: true})
+			}
+			q := gs.add(&gType{Kind: "object", Name: "Query"})
+			f := &gField{Name: "f", Ty: named("String")}
+			for i := start; i < start+per && i < len(all); i++ {
+				f.Args = append(f.Args, &gIV{Name: fmt.Sprintf("a%d", i), Ty: named("String"), Default: &gVal{Kind: "str", Str: all[i]}},
+					&gIV{Name: fmt.Sprintf("l%d", i), Ty: listOf(named("ID")), Default: &gVal{Kind: "list", List: []*gVal{{Kind: "str", Str: all[i]}, {Kind: "str", Str: all[len(all)-1-i]}}}})
+			}
+			q.Fields = []*gField{f}
+			gs.Query = "Query"
+			_, s := mustSchema(gs)
+			data, nerr := introspectJSON(s, nil)
+			fillE2E(gs, data)
+			return sexp.T("case", sexp.Sym("intro"),
+				sexp.T("schema", gs.sexp()), sexp.T("features", names(nil)),
+				sexp.T("data", jsonSexp(data)), sexp.T("errors", sexp.Int(nerr)))
+		})
+	}
+}
+
 func main() {
 	hx.Main(func(h *hx.H) {
+		for k := 0; k <= 9; k++ {
+			k := k
+			h.Case(func(r *rng.R) sexp.Node { return chainCase(k) })
+		}
+		stringCases(h)
 		n := 1500
 		if h.Thorough() {
 			n = 40000
